@@ -106,7 +106,7 @@ static Toks ref_cmdargs(const std::string &s)
 static void check_split(const std::string &s)
 {
     static const char DELIM_CH[2] = {' ', '/'};
-    static const char *DELIM_SETS[3] = {" \t\n", "/.", "b"};
+    static const char *DELIM_SETS[4] = {" \t\n", "/.", "b", "\xA0."};
     for (int m = 0; m < 2; m++)
     {
         Place pl = place(m, s.size());
